@@ -465,11 +465,12 @@ func (p *PropertyGenerator) hasURIKind() bool {
 	return false
 }
 
-// hasTextKind returns true if this property has a Kind that holds text: a
-// string or a natural language string.
+// hasTextKind returns true if this property has a Kind that a plain string
+// can be the text of: xsd:string. (A natural language map is written as an
+// object, so it does not make a string ambiguous.)
 func (p *PropertyGenerator) hasTextKind() bool {
 	for _, k := range p.kinds {
-		if k.isValue() && (k.Name.LowerName == "string" || k.Name.LowerName == "langString") {
+		if k.isValue() && k.Name.LowerName == "string" {
 			return true
 		}
 	}
